@@ -377,11 +377,11 @@ def rule_ref_patterns(text, ctx):
 def rule_refcell(text, ctx):
     """R9: RefCell erasure."""
     before = text
-    text = re.sub(r'RefCell::new\(', 'core::convert::identity(', text)
+    text = re.sub(r'RefCell::new\(', '(', text)
     text = re.sub(r'RefCell<', 'VerifErased<', text)
     text = re.sub(r'\s*\.borrow(_mut)?\(\)', '', text)
     if text != before:
-        ctx.note('R9', 'RefCell<T> / RefCell::new(e) / .borrow() / .borrow_mut()', 'VerifErased<T> (= T) / identity(e) / (removed)')
+        ctx.note('R9', 'RefCell<T> / RefCell::new(e) / .borrow() / .borrow_mut()', 'VerifErased<T> (= T) / (e) / (removed)')
     return text
 
 
@@ -526,6 +526,14 @@ def rule_vec_ref_iter(text, ctx):
     return re.sub(r'in &(mapped|chars) \{', f, text)
 
 
+def rule_skipped_insert(text, ctx):
+    """R21: `self.skipped.insert(pattern.to_vec())` -> `verif_skipped_insert(&mut self.skipped, pattern)` (external_body wrapper, body = original)"""
+    def f(m):
+        ctx.note('R21', m.group(0), 'verif_skipped_insert(&mut self.skipped, pattern)')
+        return 'verif_skipped_insert(&mut self.skipped, pattern)'
+    return re.sub(r'self\.skipped\.insert\(pattern\.to_vec\(\)\)', f, text)
+
+
 def rule_fold(text, ctx):
     """R14: `S\n.iter()\n.fold(INIT, |acc, c| BODY)` -> block with a for loop."""
     m = re.search(r'(\w+)\s*\.iter\(\)\s*\.fold\((\w+), \|(\w+), (\w+)\| ([^)]*\))\)', text)
@@ -649,6 +657,8 @@ def apply_fn(text, spec, ctx, assoc_types=None, canary=False):
         text = rule_enumerate(text, ctx)
     if 'R18' in spec.rules:
         text = rule_guarded_continue(text, ctx)
+    if 'R21' in spec.rules:
+        text = rule_skipped_insert(text, ctx)
     if 'R19' in spec.rules:
         text = rule_sort_pairs(text, ctx)
     if 'R20' in spec.rules:
